@@ -103,13 +103,11 @@ func TestBreakerMachine(t *testing.T) {
 				like = rules[0]
 			}
 			r, mr := DrawRuleLike(t, fmt.Sprintf("r%d", i), "res", like)
-			if staged && i == 1 {
-				twin := *rules[0]
-				twin.Id = r.Id
-				if twin == *r { // drawn independently and equal in every field: not a twin either
-					r.RetryTimeoutMs++
-					mr.RetryTimeoutMs++
-				}
+			if staged && i == 1 && r.RetryTimeoutMs == rules[0].RetryTimeoutMs {
+				// never a twin: the loader matches rules to their old breakers modulo ID (and modulo the fields the strategy does
+				// not use); two rules with different retry timeouts are never interchangeable for it
+				r.RetryTimeoutMs++
+				mr.RetryTimeoutMs++
 			}
 			rules = append(rules, r)
 			ms = append(ms, model.NewBreaker(mr, &mlog))
